@@ -86,3 +86,28 @@ where
     | y :: ys => if x.2.length ≥ y.2.length then x :: y :: ys else y :: insertStable x ys
 
 end Cp
+
+namespace Cp
+
+/-- `_parse_parsable_derived_array(len(b), [Factory], fallback)` over code positions: items until
+the slice is exhausted; a trailing fragment shorter than a code is `NotEnoughData`. Without a
+fallback an unknown code surfaces as `ValueError`, which the callers turn into `InvalidValue`. -/
+def parseCodedArray (codes : List Nat) (k : Nat) (fallback : Bool) : Nat → Bytes → Except PErr (List Coded)
+  | 0, _ => .ok []
+  | fuel + 1, b =>
+    if b.isEmpty then .ok []
+    else
+      match (if fallback then parseCodedOrFallback codes k b
+             else (parseCoded codes k b).map fun (i, n) => (Coded.known i, n)) with
+      | .error e => .error e
+      | .ok (v, n) =>
+        if n == 0 then .error (.crash "NonTermination")
+        else (parseCodedArray codes k fallback fuel (b.drop n)).map (v :: ·)
+
+/-- `IntEnum(value)` as a converter inside `parse_numeric`: lookup by value among `__members__`
+(aliases resolve to the canonical member, i.e. the same value); `ValueError` → `InvalidValue`. -/
+def parseIntEnum (memberCodes : List Nat) (k : Nat) (rest : Bytes) : Except PErr (Nat × Nat) := do
+  let (c, n) ← parseNum .network k rest
+  if memberCodes.contains c then pure (c, n) else .error .invalidValue
+
+end Cp
